@@ -77,3 +77,39 @@ fn c10_iterations_bound() {
     let num = 49 * d + if d < 46 { 80 } else { 57 };
     assert!(17 * it <= num && num < 17 * (it + 1)); // it = floor(num / 17), stated without division
 }
+
+// ---------------------------------------------------------------- final normalisation (cut-point of inv / inv_vartime)
+/// 186-bit two's complement image of v in three 62-bit limbs
+fn mk3(v: i128) -> UnsatInt<3> {
+    let u = v as u128;
+    let top = ((u >> 124) as u64 & 0xf) | if v < 0 { M & !0xf } else { 0 };
+    UnsatInt::<3>([(u as u64) & M, ((u >> 62) as u64) & M, top])
+}
+/// value of a well-formed 3-limb unsaturated integer that fits an i128
+fn sval3(x: &UnsatInt<3>) -> i128 {
+    let lo = (x.0[0] as u128) | ((x.0[1] as u128) << 62) | (((x.0[2] & 0xf) as u128) << 124);
+    lo as i128
+}
+
+//@ prop=C10,C11 tier=quick profile=k64 funcs="SafeGcdInverter::norm" bound="SAT 1 limb / UNSAT 3 limbs: every odd 64-bit modulus M, every d in the documented interval (-2M, M), both values of negate: the result is the representative in [0, M) of +-d" free_bits=194 assumes="cut point: d in (-2M, M) as documented for norm"
+#[kani::proof]
+#[kani::unwind(8)]
+fn c10_norm_fixed_1() {
+    let m: u64 = kani::any();
+    kani::assume(m & 1 == 1);
+    let mi = m as i128;
+    let v: i128 = kani::any();
+    kani::assume(-2 * mi < v && v < mi);
+    let inv = super::SafeGcdInverter::<1, 3> { modulus: mk3(mi), adjuster: mk3(1), inverse: 0 };
+    let neg: bool = kani::any();
+    let r = inv.norm(mk3(v), crate::ConstChoice::from_word_lsb(neg as Word));
+    assert!(r.0[0] <= M && r.0[1] <= M && r.0[2] == 0);
+    let rv = sval3(&r);
+    let sv = if neg { -v } else { v };
+    assert!(0 <= rv && rv < mi);
+    assert!(rv == sv || rv == sv + mi || rv == sv + 2 * mi || rv == sv - mi);
+    kani::cover!(v <= -mi && !neg);
+    kani::cover!(v <= -mi && neg);
+    kani::cover!(v > 0 && neg);
+    kani::cover!(v == 0);
+}
